@@ -374,6 +374,17 @@ def o4_o5_cases(state):
     cfl = clone_as_function(srcl, [a])
     if cfl.display_latex != srcl.display_latex or cfl.display_name != srcl.display_name:
         bad.append(f"clone_as_function of a source with LaTeX name {srcl.display_latex!r} has names {(cfl.display_name, cfl.display_latex)}")
+    # clones inherit the source's assumptions when none are passed (symbol, indexed and function clones alike)
+    srcp = Symbol("n", units.mass, positive=True)
+    cip = clone_as_indexed(srcp)
+    if cip.assumptions0 != srcp.assumptions0 or cip[cip.index].is_positive is not True:
+        bad.append(f"clone_as_indexed of a positive symbol has assumptions {dict(cip.assumptions0)}; element positive: {cip[cip.index].is_positive}")
+    csp = clone_as_symbol(srcp)
+    if csp.assumptions0 != srcp.assumptions0 or csp.is_positive is not True:
+        bad.append(f"clone_as_symbol of a positive symbol has assumptions {dict(csp.assumptions0)}")
+    cnp = clone_as_indexed(srcp, positive=False, real=True)
+    if cnp.is_positive is not False:
+        bad.append("explicitly passed assumptions of an indexed clone are not honoured")
     src = Symbol("m", units.mass)
     ci = clone_as_indexed(src)
     ci2 = clone_as_indexed(src)
